@@ -311,19 +311,22 @@ class CtlWorld:
                 setattr(pool, call["m"], args[0])
                 return "none", ""
             meth = getattr(pool, call["m"])
-            if inspect.iscoroutinefunction(meth):
+            r0 = meth(*args, **kwargs)
+            if inspect.isawaitable(r0):
+                # the method itself waits (a coroutine function, or any callable that hands back an awaitable): what the
+                # command stands for is the awaited call - its reply is due when the wait is over
                 box = {"res": None}
 
                 async def run():
                     try:
-                        r = await meth(*args, **kwargs)
+                        r = await r0
                         box["res"] = ("none", "") if r is None else ("value", str(r))
                     except Exception as e:
                         box["res"] = ("exc", str(e))
                 t = self.loop.create_task(run(), name="TW")
                 self.twin_tasks.append((t, box))
                 return "await", str(len(self.twin_tasks) - 1)
-            r = meth(*args, **kwargs)
+            r = r0
             return ("none", "") if r is None else ("value", str(r))
         except Exception as e:
             return "exc", str(e)
@@ -379,8 +382,10 @@ class CtlWorld:
                     raise ValueError(k)
             self.idle()
         alive = sorted(s for s, st in self.sessions.items() if not st["task"].done())
+        # replies that were written for a waiting command although the same call, made directly on the twin, is still waiting
+        early = sorted({p["s"] for p in self.await_pairs if not self.twin_tasks[p["tw"]][0].done()})
         self.ev("final", stdout=self.out.getvalue()[:200], stderr=self.err.getvalue()[:200], alive=alive,
-                loop_errors=len(self.loop_errors))
+                loop_errors=len(self.loop_errors), early=early)
 
     def close(self):
         self.shutting = True
